@@ -15,6 +15,8 @@ pub struct WireState {
     pub head_off: usize,
     pub closed: bool,
     pub read_err: bool,
+    /// how many reads have failed so far (the kind of error rotates)
+    pub read_errs: usize,
     /// Total bytes handed to the connection so far.
     pub delivered: usize,
     /// Every read: (destination address, destination capacity, bytes copied).
@@ -124,9 +126,12 @@ impl ReadHalf for R {
                         }
                         // the ways a transport reports a failed read: the library's own variant, or the I/O error
                         // of the operating system (a reset connection, a broken pipe), alternating by connection
-                        Poll::Ready(Err(match tag % 3 {
+                        w.read_errs += 1;
+                        Poll::Ready(Err(match (tag as usize + w.read_errs) % 5 {
                             0 => zlink_core::Error::SocketRead,
                             1 => zlink_core::Error::Io(std::io::Error::from(std::io::ErrorKind::ConnectionReset)),
+                            2 => zlink_core::Error::Io(std::io::Error::from(std::io::ErrorKind::Interrupted)),
+                            3 => zlink_core::Error::Io(std::io::Error::from(std::io::ErrorKind::TimedOut)),
                             _ => zlink_core::Error::Io(std::io::Error::from(std::io::ErrorKind::BrokenPipe)),
                         }))
                     } else if w.closed {
